@@ -158,6 +158,31 @@ def run(chk):
     relocrules.target_section_used(chk, cfg.find_fn(fch, "CodeHolder::relocate_to_base"))
     relocrules.bind_label_sections(chk, cfg.find_fn(fch, "CodeHolder::bind_label"))
 
+    # ---------------------------------------------------------------- a bound label entry never receives a fixup list
+    RF = "R-FIXUP-ONLY-UNBOUND"
+    chk.rule(RF, "CodeHolder::new_fixup: the label entry's offset/fixup word is overwritten with a fixup pointer (_set_fixups) only on the edge "
+                 "where the entry is known not to be bound - for a bound label that word is its offset")
+    fnf = chk.facts("asmjit/core/codeholder.cpp", funcs=r"asmjit::CodeHolder::new_fixup$")
+    nf = cfg.find_fn(fnf, "CodeHolder::new_fixup")
+
+    def bound_edge(b, si, atom, holds, fn=nf):
+        x = fn.e(atom)
+        if x and x["k"] == "mcall" and x.get("cn") == "is_bound" and not holds:
+            return [("unbound", fn.access_path(x["obj"]))]
+        if x and x["k"] == "unop" and x["op"] == "!" and holds:
+            y = fn.e(fn.strip(x["sub"]))
+            if y and y["k"] == "mcall" and y.get("cn") == "is_bound":
+                return [("unbound", fn.access_path(y["obj"]))]
+        return ()
+    mnf = Must(nf, None, bound_edge)
+    sets = [(i, x) for i, x in nf.calls(lambda x: x.get("cn") == "_set_fixups")]
+    chk.need(len(sets) >= 1, "new_fixup no longer calls _set_fixups")
+    for k, (i, x) in enumerate(sets):
+        root = nf.access_path(x["obj"])
+        chk.ob(RF, "CodeHolder::new_fixup|_set_fixups#%d" % k, ("unbound", root) in (mnf.before(i) or frozenset()), loc=nf.loc(i),
+               detail="`%s` can run for a bound label entry: its offset is replaced by a heap pointer, the reference is never resolved and later "
+                      "references to the label use the pointer as an offset" % " ".join(nf.text(i).split())[:60], key="fixupunbound|%d" % k)
+
     return chk.finish(
         level="other",
         explanation=("Bookkeeping rules over label/fixup handling in /repo's current source: label ids validated on the taken edge before "
